@@ -125,6 +125,9 @@ class MemoryAccess:
                                 self.server.error = 0x0
 
                 case DMState.WAIT_QUERY:
+                    # busy with our own query: the reason an earlier respond() has left behind
+                    # must not go out with this answer
+                    self.server.error = 0x0
                     self.server.set_busy(True)
                     self.server.parse_dm14(priority, pgn, sa, timestamp, data)
                     self.server.set_busy(False)
